@@ -1188,6 +1188,7 @@ var sessionPkgs = map[string]bool{"device": true, "asa": true, "ios": true, "cis
 func checkC09(p *Prog, r *Report) {
 	ruleSharedErrorInGoroutines(p, r, "R09.12")
 	ruleNoRetryOnFailure(p, r, "R09.14", map[string]bool{"panos": true, "nsx": true, "httpdevice": true})
+	ruleDeviceReadsAudited(p, r, "R09.15")
 	ruleLinuxStartupRoutingLast(p, r, "R09.13")
 	ruleRegexpConsts(p, r, "R-RX", "C09", 1)
 	m, err := p.model()
